@@ -24,7 +24,7 @@ import (
 	"github.com/flamego/flamego/verifharness/internal/rt"
 )
 
-const rule = "case = options (Charset, JSONIndent, XMLIndent; or none) x Renderer placed as application middleware, group handler or route handler (optionally with another, differently configured Renderer in front of it as application middleware) x 1..3 later handlers of which one renders x a render call: JSON of a randomly nested value (maps, slices, strings with <>&, numbers, booleans, null) of a tagged struct, or of a byte slice / named byte slice / json.RawMessage, XML of a struct with attributes, nested, optional and repeated elements and a field that encodes itself through pointer-receiver marshalers (JSON and XML alike; the value is passed by pointer), or of a value whose encoding is empty (empty / nil slice, nil pointer), Binary of arbitrary bytes, PlainText of arbitrary text (payloads now and then 0.5..70 KB), with a status in 100..999, for GET / POST / HEAD; optionally the rendering handler first serves a nested request through the same application (which renders something else) before rendering its own response, optionally a middleware in front or the handler itself has already put some other Content-Type on the response. " +
+const rule = "case = options (Charset, JSONIndent, XMLIndent; or none) x Renderer placed as application middleware, group handler or route handler (optionally with another, differently configured Renderer in front of it as application middleware) x 1..3 later handlers of which one renders x a render call: JSON of a randomly nested value (maps, slices, strings with <>&, numbers, booleans, null) of a tagged struct, or of a byte slice / named byte slice / json.RawMessage, XML of a struct with attributes, nested, optional and repeated elements and a field that encodes itself through pointer-receiver marshalers (JSON and XML alike; the value is passed by pointer), or of a value whose encoding is empty (empty / nil slice, nil pointer), Binary of arbitrary bytes, PlainText of arbitrary text (payloads now and then 0.5..70 KB), with a status in 100..999, for GET / POST / HEAD; optionally the rendering handler first serves a nested request through the same application (which renders something else) before rendering its own response, optionally a middleware in front or the handler itself has already put some other Content-Type on the response; with the Renderer as application middleware also a request of method GET / POST / PROPFIND / head / Head / get that ends in a rendering not-found handler, and optionally a route whose rendering handler is started by the second Next() of a middleware in front of the Renderer. " +
 	"Oracle: the spy writer got exactly the given status once and before the body; Content-Type is the documented media type with the configured (default utf-8) charset; Binary / PlainText bodies are verbatim; the JSON body is valid JSON laid out with the configured indentation and json.Unmarshal of it is DeepEqual to the value; the XML body decodes into an equal struct and is indented iff an indentation is configured; every handler after the middleware receives a Render. " +
 	"non-trivial = a non-200 status, a non-default option, a value nested >= 2 deep, a nested request, a Content-Type set before the render call, or a HEAD request; distinct by case text"
 
@@ -120,6 +120,14 @@ type Case struct {
 	SharedSlice bool `json:"options_slice_reused,omitempty"`
 	// Env: "" (development, the default), production, test.
 	Env string `json:"env,omitempty"`
+	// NFMethod (renderer as application middleware): the method of the request
+	// that probes the not-found chain ("" = GET); "head" and "Head" are not HEAD.
+	NFMethod string `json:"not_found_probe_method,omitempty"`
+	// Resume (renderer as application middleware): a middleware in front of the
+	// Renderer calls Next() twice; on a second route the first handler writes
+	// (the chain stops there) and the second one, which the second Next() starts
+	// after the Renderer middleware has returned, renders.
+	Resume bool `json:"chain_resumed_by_second_next,omitempty"`
 }
 
 func (c Case) value() interface{} {
@@ -242,7 +250,16 @@ func checkCase(c Case) (out evid.Outcome) {
 	}
 	switch c.At {
 	case "use":
+		if c.Resume {
+			f.Use(func(ctx flamego.Context) {
+				ctx.Next()
+				ctx.Next()
+			})
+		}
 		f.Use(renderer)
+		f.Get("/resume",
+			func(ctx flamego.Context) { _, _ = ctx.ResponseWriter().Write([]byte("first;")) },
+			func(r flamego.Render) { r.PlainText(202, "second") })
 		f.Any("/r", hs...)
 		f.Get("/inner", innerH)
 		// the not-found chain runs after the application middleware as well
@@ -261,10 +278,29 @@ func checkCase(c Case) (out evid.Outcome) {
 		var nfEscaped interface{}
 		func() {
 			defer func() { nfEscaped = recover() }()
-			f.ServeHTTP(nf, rt.NewRequest("GET", "/no/such/route", nil))
+			m := c.NFMethod
+			if m == "" {
+				m = "GET"
+			}
+			f.ServeHTTP(nf, rt.NewRequest(m, "/no/such/route", nil))
 		}()
 		if nfEscaped != nil || nf.Status() != 404 || string(nf.Body) != "nothing-here" {
-			return evid.Fail("render-unavailable", "a not-found handler behind the Renderer middleware could not render: status %v body %q panic %v; %s", nf.Codes, nf.Body, nfEscaped, js(c))
+			return evid.Fail("render-unavailable", "a not-found handler behind the Renderer middleware could not render (method %q): status %v body %q panic %v; %s", c.NFMethod, nf.Codes, nf.Body, nfEscaped, js(c))
+		}
+		if c.NFMethod != "" {
+			out.Classes = append(out.Classes, "not-found-probe:"+c.NFMethod)
+		}
+		if c.Resume {
+			rs := rt.NewSpy()
+			var escaped interface{}
+			func() {
+				defer func() { escaped = recover() }()
+				f.ServeHTTP(rs, rt.NewRequest("GET", "/resume", nil))
+			}()
+			if escaped != nil || string(rs.Body) != "first;second" {
+				return evid.Fail("render-unavailable", "a handler that runs after the Renderer middleware - started by a second Next() of a middleware in front, after an earlier handler had written - could not render: body %q (want \"first;second\") panic %v; %s", rs.Body, escaped, js(c))
+			}
+			out.Classes = append(out.Classes, "chain-resumed-by-second-next")
 		}
 	}
 	spy := rt.NewSpy()
@@ -590,6 +626,10 @@ func genCase(t *rapid.T) Case {
 	c.Which = rapid.IntRange(0, c.After-1).Draw(t, "which")
 	c.Outer = c.At != "use" && rapid.IntRange(0, 3).Draw(t, "outer") == 0
 	c.Env = []string{"", "", "production", "test"}[rapid.IntRange(0, 3).Draw(t, "env")]
+	if c.At == "use" {
+		c.NFMethod = []string{"", "", "PROPFIND", "head", "Head", "get", "POST"}[rapid.IntRange(0, 6).Draw(t, "nfmethod")]
+		c.Resume = rapid.IntRange(0, 2).Draw(t, "resume") == 0
+	}
 	if rapid.IntRange(0, 3).Draw(t, "opts") > 0 {
 		c.Opts = &flamego.RenderOptions{
 			Charset:    []string{"", "", "ISO-8859-1", "gbk", "ascii", "shift_jis", "euc-kr", "tis-620", "utf-16", "charset", "hz-gb-2312"}[rapid.IntRange(0, 10).Draw(t, "charset")],
